@@ -9,7 +9,8 @@ import SqlizeModel.Impl.Diff
 namespace Sqlize
 
 def Table.Quiet (t : Table) : Prop :=
-  t.action = .none ∧ (∀ c ∈ t.cols, c.action = .none) ∧ (∀ i ∈ t.idxs, i.action = .none) ∧ (∀ f ∈ t.fks, f.action = .none)
+  t.action = .none ∧ (∀ c ∈ t.cols, c.action = .none) ∧ (∀ i ∈ t.idxs, i.action = .none) ∧
+  (∀ f ∈ t.fks, f.action = .none ∨ f.action = .modify)    -- a foreign key found on both sides is tagged `modify`, which prints nothing
 
 theorem walkCols_quiet (g : Globals) (tb : String) (up : Bool) (cols : List Column)
     (h : ∀ c ∈ cols, c.action = .none) : ∀ before, Table.walkCols g tb up before cols = ([], []) := by
@@ -31,15 +32,17 @@ theorem walkIdx_quiet (g : Globals) (tb : String) (up : Bool) (dc : List String)
     simp [Table.walkIdx, ih hr, hi, bind, Except.bind, pure, Except.pure]
 
 theorem walkFk_quiet (tb : String) (up : Bool) (dc : List String) (fks : List ForeignKey)
-    (h : ∀ f ∈ fks, f.action = .none) : Table.walkFk tb up dc fks = [] := by
+    (h : ∀ f ∈ fks, f.action = .none ∨ f.action = .modify) : Table.walkFk tb up dc fks = [] := by
   induction fks with
   | nil => rfl
   | cons f r ih =>
-    have hf : f.action = .none := h f (by simp)
-    have hr : ∀ x ∈ r, x.action = .none := fun x hx => h x (by simp [hx])
+    have hf := h f (by simp)
+    have hr : ∀ x ∈ r, x.action = .none ∨ x.action = .modify := fun x hx => h x (by simp [hx])
     have := ih hr
-    simp [Table.walkFk, hf] at this ⊢
-    exact this
+    rcases hf with hf | hf
+    · simp [Table.walkFk, hf] at this ⊢
+      exact this
+    · cases up <;> simp [Table.walkFk, hf, ForeignKey.migrationUp, ForeignKey.migrationDown] at this ⊢ <;> exact this
 
 /-- `Arrange` only permutes columns: it preserves "every column has no action" -/
 theorem arrangeGo_actions (p : Column → Prop) : ∀ (orders : List (String × Nat)) (cols : List Column) (i : Nat) (cols' : List Column),
